@@ -731,8 +731,14 @@ pub fn scenario<C: MlsConfig>(rng: &mut Rng, mk: Mk<C>, out: &mut Out, exhaustiv
                     cases.push((format!("insider-reattribute-commit-to-{who}"), m, &cm, cb.clone()));
                 }
             }
-            if let Ok(m) = c.verif_reattribute(&cm, idx(2)) {
-                cases.push(("insider-reattribute-commit-taken-over-by-C".into(), m, &cm, cb.clone()));
+            // (only a commit WITH an update path: its leaf node is signed for A's leaf index and cannot be C's.  A path-less
+            // commit re-issued by C under its own name is simply a commit C may send itself — C can compute its confirmation tag —
+            // and not a forgery)
+            let has_path = c.clone().verif_commit_proposals(&cm).map(|(_, p)| p).unwrap_or(false);
+            if has_path {
+                if let Ok(m) = c.verif_reattribute(&cm, idx(2)) {
+                    cases.push(("insider-reattribute-commit-taken-over-by-C".into(), m, &cm, cb.clone()));
+                }
             }
             if let Some(p) = prop.as_ref() {
                 let pb = p.to_bytes().unwrap_or_default();
